@@ -41,4 +41,6 @@ Next == /\ d.eol = ""
 Spec == Init /\ [][Next]_vars
 
 DecoderCorrect == d.eol # "" => RefRead(d) = g
+\* the transcription of ReadFromSRT refines the reference decoder on every rendering the format tolerates
+ImplRefines == d.eol # "" => ImplRead(d) = RefRead(d)
 =============================================================================
